@@ -494,6 +494,10 @@ def run(ctx):
                     if const_eval(n.kids[1]) == 0 or an.field_of_load(n.kids[1]) is not None:
                         stores[t.field] = stores.get(t.field, 0) + 1
     for fld in NULLABLE:
+        if fld[0].startswith('CO_CSDO') and not getattr(m, 'has_csdo', True):
+            continue          # the SDO client is compiled out in this configuration
+        if fld[0].startswith('CO_LSS') and not getattr(m, 'has_lss', True):
+            continue
         if fld not in stores:
             ctx.broke(['C01'], 'RF5: frozen nullable location %s.%s no longer receives a null (or nullable) store: table stale' % fld)
     ctx.table('C01', 'RF5 store statistic (pointer fields receiving null / nullable values; frozen nullable set marked *)',
